@@ -9,6 +9,8 @@ impl Vm {
     pub closed spec fn acc_spec(&self) -> VCell { self.acc }
     pub closed spec fn heap_spec(&self) -> crate::vm::heap::Heap { self.heap }
     pub closed spec fn globenv_spec(&self) -> crate::vm::environment::GlobalEnvironment { self.globenv }
+    /// a stack trace of a failed evaluation is on record
+    pub closed spec fn has_trace(&self) -> bool { self.last_stacktrace is Some }
 }
 '''
 
@@ -37,9 +39,12 @@ pub assume_specification [Vm::run_one] (vm: &mut Vm) -> (r: Result<bool, Error>)
            (r matches Ok(false)) <==> step_kind(obs(*old(vm))) == 0,
            (r matches Ok(true)) <==> step_kind(obs(*old(vm))) == 1,
            (r is Err) <==> step_kind(obs(*old(vm))) == 2,
-           r matches Err(e) ==> e == step_err(obs(*old(vm)));
+           r matches Err(e) ==> e == step_err(obs(*old(vm))),
+           final(vm).has_trace() == old(vm).has_trace();
 /// a collection does not change the observable state (this is property C03; assumed here)
-pub assume_specification [Vm::run_gc] (vm: &mut Vm) ensures obs(*final(vm)) == obs(*old(vm));
+pub assume_specification [Vm::run_gc] (vm: &mut Vm) ensures obs(*final(vm)) == obs(*old(vm)), final(vm).has_trace() == old(vm).has_trace();
+/// fetching an opcode moves the instruction pointer: nothing is known about the observable state afterwards (run_count never calls it)
+pub assume_specification [Vm::read_opcode] (vm: &mut Vm) -> (r: Result<crate::vm::opcode::OpCode, Error>);
 pub assume_specification [crate::vm::trace::StackTrace::new] (s: &Stack, h: &Heap, ip: (usize, usize), acc: VCell) -> (r: StackTrace);
 pub uninterp spec fn heap_value(h: Heap, v: VCell) -> Cell;
 pub assume_specification [Heap::get_as_cell] (h: &Heap, v: &VCell) -> (r: Cell) ensures r == heap_value(*h, *v);
@@ -48,6 +53,12 @@ pub uninterp spec fn stack_wiped(s: Stack) -> bool;
 /// every slot Undefined afterwards, sp unchanged (proved in unit `stack`; assumed in this group where Stack is opaque)
 pub assume_specification [Stack::clear] (s: &mut Stack) ensures stack_wiped(*final(s)), stack_sp(*final(s)) == stack_sp(*old(s));
 /// hands out the stack pointer register: only sp changes through the returned reference
+/// further Stack accessors (run_count does not call them; declared so that a change that does stays decidable): nothing is known
+/// about what a write through get_mut leaves
+pub assume_specification [Stack::get_sp] (s: &Stack) -> (r: usize) ensures r == stack_sp(*s);
+pub assume_specification [Stack::len] (s: &Stack) -> (r: usize);
+pub assume_specification [Stack::get] (s: &Stack, i: usize) -> (r: Result<&VCell, Error>);
+pub assume_specification [Stack::get_mut] (s: &mut Stack, i: usize) -> (r: Result<&mut VCell, Error>);
 pub assume_specification [Stack::get_sp_mut] (s: &mut Stack) -> (r: &mut usize)
     ensures *r == stack_sp(*old(s)), stack_sp(*final(s)) == *final(r), stack_wiped(*final(s)) == stack_wiped(*old(s));
 /// heap and global environment of an observable state
@@ -113,11 +124,11 @@ UNITS = [
     {
         'name': 'run',
         'file': 'src/vm/run.rs',
-        'uses_types': ['Cell', 'Error', 'Heap', 'Stack', 'GlobalEnvironment', 'StackTrace', 'VCell'],
+        'uses_types': ['Cell', 'Error', 'Heap', 'Stack', 'GlobalEnvironment', 'StackTrace', 'VCell', 'OpCodeT'],
         'prelude': RUN_PRELUDE,
         'fns': {
             'impl Vm::run_count': {
-                'props': ['C13', 'C06'],
+                'props': ['C13', 'C07', 'C06'],
                 'loop_isolation': True,  # invariant_except_break / loop ensures need an isolated loop
                 'attrs': '#[verifier::exec_allows_no_decreases_clause]',
                 'requires': ['count >= 1'],
@@ -130,13 +141,15 @@ UNITS = [
                     (P13, 'r matches Err(e) ==> exists|k: nat| first_stop(obs(*old(self)), count as nat, k) && step_kind(iter(obs(*old(self)), k)) == 2 && e == step_err(iter(obs(*old(self)), k)) && obs_store(obs(*final(self))) == obs_store(iter(obs(*old(self)), k + 1))'),
                     # C07: a failed evaluation leaves the machine in the idle top-level control state (no frames, no stale roots)
                     (['C07'], '(r is Err) ==> final(self).idle()'),
+                    # C07: the recorded stack trace is the one of THIS evaluation: none unless it failed (a stale trace of an earlier failure is gone)
+                    (['C07'], '(r is Ok) ==> !final(self).has_trace()'),
                 ],
                 'loops': {0: '''invariant_except_break
-                    cycles < count,
+                    cycles < count, !self.has_trace(),
                     runs(obs(*old(self)), cycles as nat),
                     obs(*self) == iter(obs(*old(self)), cycles as nat),
                 ensures
-                    1 <= cycles <= count,
+                    1 <= cycles <= count, !self.has_trace(),
                     runs(obs(*old(self)), (cycles - 1) as nat),
                     step_kind(iter(obs(*old(self)), (cycles - 1) as nat)) == 1,
                     obs(*self) == iter(obs(*old(self)), cycles as nat),'''},
